@@ -973,11 +973,14 @@ class TempoClock(Clock, metaclass=MetaTempoClock):
                 f"invalid tempo {value}. The method "
                 "'etempo()' can be used instead.")
         # TempoClock::SetTempoAtBeat
-        beats = self.beats
-        self._base_seconds = self.beats2secs(beats)
-        self._base_beats = beats
-        self._tempo = value
-        self._beat_dur = 1.0 / self._tempo
+        # (Under the main lock, otherwise a call from another thread reads
+        # the time of the routine a clock thread is running at the moment.)
+        with _libsc3.main._main_lock:
+            beats = self.beats
+            self._base_seconds = self.beats2secs(beats)
+            self._base_beats = beats
+            self._tempo = value
+            self._beat_dur = 1.0 / self._tempo
         # en tempo_
         mdl.NotificationCenter.notify(self, 'tempo')
         if self.mode == _libsc3.main.NRT_MODE:
